@@ -1,8 +1,10 @@
 package hx
 
 import (
+	"bytes"
 	"context"
 	"fmt"
+	"log"
 	"net"
 	"net/http/httptest"
 	"os"
@@ -67,6 +69,7 @@ type World struct {
 	SMTP    *smtp.Server
 	POP3    *pop3.Server
 	HTTP    *httptest.Server
+	HTTPLog *SyncBuffer // the HTTP server's error log ("http: panic serving ...")
 	Lua     *luahost.Host
 	Dir     string
 	Ctx     context.Context
@@ -166,7 +169,10 @@ func NewWorld(c Cfg) (*World, error) {
 		webui.SetupRoutes(web.Router.PathPrefix(prefix("/serve/")).Subrouter())
 		rest.SetupRoutes(web.Router.PathPrefix(prefix("/api/")).Subrouter())
 		web.NewServer(conf, w.Manager, w.Hub)
-		w.HTTP = httptest.NewServer(web.Router)
+		w.HTTP = httptest.NewUnstartedServer(web.Router)
+		w.HTTPLog = &SyncBuffer{}
+		w.HTTP.Config.ErrorLog = log.New(w.HTTPLog, "", 0)
+		w.HTTP.Start()
 	}
 	w.SMTP = smtp.NewServer(conf.SMTP, w.Manager, w.Policy, w.Host)
 	w.POP3, err = pop3.NewServer(conf.POP3, w.Store)
@@ -247,3 +253,21 @@ func (w *World) ServePOP3() (net.Conn, <-chan struct{}) {
 
 // MailboxFor is the server's own naming function.
 func (w *World) MailboxFor(addr string) (string, error) { return w.Manager.MailboxForAddress(addr) }
+
+// SyncBuffer is a goroutine-safe bytes.Buffer.
+type SyncBuffer struct {
+	mu sync.Mutex
+	b  bytes.Buffer
+}
+
+func (s *SyncBuffer) Write(p []byte) (int, error) {
+	s.mu.Lock()
+	defer s.mu.Unlock()
+	return s.b.Write(p)
+}
+
+func (s *SyncBuffer) String() string {
+	s.mu.Lock()
+	defer s.mu.Unlock()
+	return s.b.String()
+}
